@@ -82,7 +82,9 @@ impl ByteReader for Cursor<'_> {
 
 /// Helper function to read an array of u32 values
 pub fn read_u32_array(reader: &mut impl ByteReader, count: usize) -> ParseResult<Vec<u32>> {
-    let mut values = Vec::with_capacity(count);
+    // `count` may derive from untrusted header fields: cap the pre-allocation, the loop stops
+    // with UnexpectedEof when the data runs out
+    let mut values = Vec::with_capacity(count.min(1 << 16));
     for _ in 0..count {
         values.push(reader.read_u32_le()?);
     }
